@@ -164,6 +164,9 @@ const (
 	kUseCaseReply
 	kUseCaseNotify
 	kReadManufacturer
+	kNotifyForeignFunction
+	kReplyForeignFunction
+	kDiscReplyDefectiveEntry
 	numKinds
 )
 
@@ -171,7 +174,7 @@ var kindNames = []string{"disc-reply", "disc-notify-add", "disc-notify-remove", 
 	"bind-call", "bind-delete", "sub-data-call", "bind-data-call", "read-disc", "read-usecase", "read-destlist", "read-limits",
 	"reply-limits", "notify-limits", "notify-limits-partial", "notify-limits-delete", "write-limits", "write-limits-partial",
 	"write-limits-delete-selector", "write-limits-delete-elements", "result-nm", "result-feature", "usecase-reply", "usecase-notify",
-	"read-manufacturer"}
+	"read-manufacturer", "notify-foreign-function", "reply-foreign-function", "disc-reply-defective-entry"}
 
 func limits(r *hx.Rng) *model.LoadControlLimitConstraintsListDataType {
 	l := &model.LoadControlLimitConstraintsListDataType{}
@@ -316,6 +319,31 @@ func validMessage(r *hx.Rng, kind, k int, ctr uint64) []byte {
 				ScenarioSupport: []model.UseCaseScenarioSupportType{1, 2}}}}}}
 		return encode(header(rNM, lNM, ctr, rf, cls, kind == kUseCaseNotify && ack),
 			model.CmdType{NodeManagementUseCaseData: uc})
+	case kNotifyForeignFunction, kReplyForeignFunction:
+		// a function that does not belong to the type of the SOURCE feature (LoadControl): "function data not found"
+		cls, rf := model.CmdClassifierTypeNotify, int64(-1)
+		if kind == kReplyForeignFunction {
+			cls, rf = model.CmdClassifierTypeReply, ref
+		}
+		return encode(header(rSrv, lCli, ctr, rf, cls, false),
+			model.CmdType{MeasurementListData: &model.MeasurementListDataType{MeasurementData: []model.MeasurementDataType{
+				{MeasurementId: util.Ptr(model.MeasurementIdType(1)), Value: &model.ScaledNumberType{Number: util.Ptr(model.NumberType(r.Range(1, 99)))}}}}})
+	case kDiscReplyDefectiveEntry:
+		// the complete tree with one defective entity entry (no description / no address / empty address) among the valid ones
+		d := fullTree(k)
+		bad := model.NodeManagementDetailedDiscoveryEntityInformationType{}
+		switch r.Intn(3) {
+		case 1:
+			bad.Description = &model.NetworkManagementEntityDescriptionDataType{EntityType: util.Ptr(model.EntityTypeTypeEV)}
+		case 2:
+			bad.Description = &model.NetworkManagementEntityDescriptionDataType{EntityType: util.Ptr(model.EntityTypeTypeEV),
+				EntityAddress: &model.EntityAddressType{Device: dev(k)}}
+		}
+		pos := r.Intn(len(d.EntityInformation) + 1)
+		ei := append([]model.NodeManagementDetailedDiscoveryEntityInformationType{}, d.EntityInformation[:pos]...)
+		ei = append(ei, bad)
+		d.EntityInformation = append(ei, d.EntityInformation[pos:]...)
+		return encode(header(rNM, lNM, ctr, 1, model.CmdClassifierTypeReply, false), model.CmdType{NodeManagementDetailedDiscoveryData: d})
 	case kReadManufacturer:
 		return encode(header(rNM, faddr(0, nm0, 1), ctr, -1, model.CmdClassifierTypeRead, false),
 			model.CmdType{DeviceClassificationManufacturerData: &model.DeviceClassificationManufacturerDataType{}})
